@@ -334,10 +334,83 @@ fn target_dns_query(medium: Medium) -> (u16, u16) {
     warm_target(medium).seen_dns.unwrap_or((0x1234, 49152))
 }
 
+/// An IPv6 datagram (next header `nh`, payload `payload`) from node `from` to node `to` as one IEEE 802.15.4 data
+/// frame with a LOWPAN_IPHC header (addresses derived from the link-layer addresses, next header in-line).
+fn frame154(from: u8, to: u8, nh: IpProtocol, hop: u8, payload: &[u8]) -> Vec<u8> {
+    let src_ll = Ieee802154Address::Extended([0x02, 0, 0, 0, 0, 0, 0, from]);
+    let dst_ll = Ieee802154Address::Extended([0x02, 0, 0, 0, 0, 0, 0, to]);
+    let iphc = SixlowpanIphcRepr {
+        src_addr: ll_addr(Medium::Ieee802154, from),
+        ll_src_addr: Some(src_ll),
+        dst_addr: ll_addr(Medium::Ieee802154, to),
+        ll_dst_addr: Some(dst_ll),
+        next_header: SixlowpanNextHeader::Uncompressed(nh),
+        hop_limit: hop,
+        ecn: None,
+        dscp: None,
+        flow_label: None,
+    };
+    let mac = Ieee802154Repr {
+        frame_type: Ieee802154FrameType::Data,
+        security_enabled: false,
+        frame_pending: false,
+        ack_request: false,
+        sequence_number: Some(0x55),
+        pan_id_compression: true,
+        frame_version: Ieee802154FrameVersion::Ieee802154_2003,
+        dst_pan_id: Some(Ieee802154Pan(0xbeef)),
+        dst_addr: Some(dst_ll),
+        src_pan_id: Some(Ieee802154Pan(0xbeef)),
+        src_addr: Some(src_ll),
+    };
+    let (m, i) = (mac.buffer_len(), iphc.buffer_len());
+    let mut buf = vec![0u8; m + i + payload.len()];
+    mac.emit(&mut Ieee802154Frame::new_unchecked(&mut buf[..]));
+    iphc.emit(&mut SixlowpanIphcPacket::new_unchecked(&mut buf[m..m + i]));
+    buf[m + i..].copy_from_slice(payload);
+    buf
+}
+
+/// ICMPv6 errors about a UDP datagram from port 7 / a TCP segment from port 80 of the target, with complete and
+/// truncated quotes, framed for IEEE 802.15.4 (the other media get them from `handmade_seeds`)
+fn icmp_error_seeds_154() -> Vec<Vec<u8>> {
+    let medium = Medium::Ieee802154;
+    let (me6, peer6) = (ll_addr(medium, 1), ll_addr(medium, 2));
+    let mut v = vec![];
+    let mut udp_q = vec![0u8; 12];
+    udp_q[0..2].copy_from_slice(&7u16.to_be_bytes());
+    udp_q[2..4].copy_from_slice(&9999u16.to_be_bytes());
+    udp_q[4..6].copy_from_slice(&12u16.to_be_bytes());
+    udp_q[8..12].copy_from_slice(b"quot");
+    UdpPacket::new_unchecked(&mut udp_q[..]).fill_checksum(&IpAddress::Ipv6(me6), &IpAddress::Ipv6(peer6));
+    let mut tcp_q = vec![0u8; 20];
+    tcp_q[0..2].copy_from_slice(&80u16.to_be_bytes());
+    tcp_q[2..4].copy_from_slice(&40001u16.to_be_bytes());
+    tcp_q[12] = 0x50;
+    tcp_q[13] = 0x10;
+    for (proto, q) in [(IpProtocol::Udp, &udp_q), (IpProtocol::Tcp, &tcp_q)] {
+        for cut in [q.len(), 0, 1, 4, 7, 8, 19] {
+            if cut > q.len() {
+                continue;
+            }
+            let h6 = Ipv6Repr { src_addr: me6, dst_addr: peer6, next_header: proto, payload_len: q.len(), hop_limit: 63 };
+            for r6 in [
+                Icmpv6Repr::DstUnreachable { reason: Icmpv6DstUnreachable::PortUnreachable, header: h6, data: &q[..cut] },
+                Icmpv6Repr::TimeExceeded { reason: Icmpv6TimeExceeded::HopLimitExceeded, header: h6, data: &q[..cut] },
+            ] {
+                let mut pl = vec![0u8; r6.buffer_len()];
+                r6.emit(&peer6, &me6, &mut Icmpv6Packet::new_unchecked(&mut pl[..]), &Default::default());
+                v.push(frame154(2, 1, IpProtocol::Icmpv6, 64, &pl));
+            }
+        }
+    }
+    v
+}
+
 fn handmade_seeds(medium: Medium) -> Vec<Vec<u8>> {
     let mut v = vec![];
     if medium == Medium::Ieee802154 {
-        return v;
+        return icmp_error_seeds_154();
     }
     let me4 = Ipv4Address::new(10, 0, 0, 1);
     let srv = Ipv4Address::new(10, 0, 0, 2);
